@@ -280,6 +280,15 @@ def gen_C01(rng, tier):
         # the matcher object has been used for another trace before (each match is judged on its own)
         w_plan = d["world"]
         d["trace2"] = gen.gen_trace(rng, w_plan, nobs=rng.randint(1, 6))
+        if rng.random() < 0.35 and len(d["trace"]) >= 2:
+            # colliding sibling: both traces lie exactly on roads, have the same length and end in the same point,
+            # so the two results tend to end in the same state with the same probability
+            n = len(d["trace"])
+            t1 = gen.gen_trace(rng, w_plan, nobs=n, noise=0.0, exact_p=1.0, perturb=False)
+            t2 = gen.gen_trace(rng, w_plan, nobs=n, noise=0.0, exact_p=1.0, perturb=False)
+            if len(t1) == n and len(t2) == n:
+                t2[-1] = list(t1[-1])
+                d["trace"], d["trace2"] = t1, t2
         d["ops"] = [{"op": "match", "k": len(d["trace2"]), "unique": False, "alt": True}] + d["ops"]
         for a in d["faults"].get("aborts", []):
             a["op"] = rng.randrange(len(d["ops"]))
